@@ -183,6 +183,11 @@ func newTarget(t *rapid.T, mode string, listed []peer.ID) *target {
 		if err := cfg.LoadJSON(jb); err != nil {
 			t.Fatalf("crdt section %s does not load: %v", jb, err)
 		}
+		// the daemon applies the environment on top of the loaded file
+		// (nothing is set in it here)
+		if err := cfg.ApplyEnvVars(); err != nil {
+			t.Fatalf("crdt section %s: ApplyEnvVars: %v", jb, err)
+		}
 		trustForm = form
 		cc, err := crdt.New(h, routinghelpers.Null{}, psub, cfg, dssync.MutexWrap(ds.NewMapDatastore()))
 		if err != nil {
@@ -190,13 +195,15 @@ func newTarget(t *rapid.T, mode string, listed []peer.ID) *target {
 		}
 		cons = cc
 	}
-	f := fakes.NewCluster(fakes.ClusterOpts{Host: h, Consensus: cons})
+	// request tracing switches the RPC server to another constructor path
+	tracing := rapid.Bool().Draw(t, "tracing")
+	f := fakes.NewCluster(fakes.ClusterOpts{Host: h, Consensus: cons, Mutate: func(c *ipfscluster.Config) { c.Tracing = tracing }})
 	return &target{f: f, cons: cons, closer: func() { f.Close() }}
 }
 
 func isAuthErr(err error) bool { return err != nil && rpc.IsAuthorizationError(err) }
 
-const rule = "case = consensus mode (Raft single member; CRDT with explicit trusted list, empty list, trust-all; loaded from the JSON section with trusted_peers written as a list, '*', '*' among IDs, [], null or absent) x which of the two remote callers is listed x a sequence of 0-4 Trust/Distrust calls; after every step every RPC endpoint registered by the peer (found by reflection) is called by both remote callers over real libp2p connections with an undecodable argument, so the error class shows the authorisation decision without running the handler (the finite endpoint x caller matrix is exhaustive per step); oracle = frozen table OPEN / TRUSTED / LOCAL: an allowed call implies the endpoint is OPEN, or TRUSTED and the caller is trusted by the model; endpoints missing from the table must be refused to untrusted callers; non-trivial = a caller's trust differs from the initial configuration at some step; distinct by mode + listing + history"
+const rule = "case = request tracing on/off x consensus mode (Raft single member; CRDT with explicit trusted list, empty list, trust-all; loaded from the JSON section with trusted_peers written as a list, '*', '*' among IDs, [], null or absent) x which of the two remote callers is listed x a sequence of 0-4 Trust/Distrust calls; after every step every RPC endpoint registered by the peer (found by reflection) is called by both remote callers over real libp2p connections with an undecodable argument, so the error class shows the authorisation decision without running the handler (the finite endpoint x caller matrix is exhaustive per step); oracle = frozen table OPEN / TRUSTED / LOCAL: an allowed call implies the endpoint is OPEN, or TRUSTED and the caller is trusted by the model; endpoints missing from the table must be refused to untrusted callers; non-trivial = a caller's trust differs from the initial configuration at some step; distinct by mode + listing + history"
 
 func TestRPCPolicy(t *testing.T) {
 	leg := ev.L("rpc-policy", rule)
@@ -481,6 +488,56 @@ func TestPubsubForgedAuthor(t *testing.T) {
 		if !waitPin(V, marker.Cid.String(), 30*time.Second) {
 			leg.Inconclusive("the trusted peer's marker did not reach the victim within 30 s")
 			t.Skip("inconclusive")
+		}
+		leg.Case(fmt.Sprintf("n=%d", n), true)
+	})
+}
+
+const ruleRelayTrusted = "three real CRDT replicas in a chain C - B - A (A and C cannot connect): A trusts C but not B, B trusts everybody (so it relays); C publishes 1-3 pins; they must arrive at A (trust is about who signed an update, not about which neighbour delivered it) within 30 s; B's own marker, published afterwards, must not arrive at A within 1.5 s; non-trivial = always; distinct by parameters"
+
+func TestPubsubRelayTrustedSigner(t *testing.T) {
+	leg := ev.L("pubsub-relay-trusted-signer", ruleRelayTrusted)
+	rapid.Check(t, func(t *rapid.T) {
+		name := fmt.Sprintf("verif-c07s-%d-%d", os.Getpid(), atomic.AddInt64(&caseN, 1))
+		C := fakes.NewCRDTReplica(gen.PeerKeys[1], func(c *crdt.Config) { c.ClusterName = name; c.TrustAll = true; c.RebroadcastInterval = time.Hour })
+		defer C.Close()
+		B := fakes.NewCRDTReplica(gen.PeerKeys[3], func(c *crdt.Config) { c.ClusterName = name; c.TrustAll = true; c.RebroadcastInterval = time.Hour })
+		defer B.Close()
+		A := fakes.NewCRDTReplica(gen.PeerKeys[2], func(c *crdt.Config) { c.ClusterName = name; c.TrustedPeers = []peer.ID{gen.Peers[1]} })
+		defer A.Close()
+		C.Partition(A)
+		if err := C.Connect(B); err != nil {
+			t.Fatalf("VERIF-INFRA connect: %v", err)
+		}
+		if err := B.Connect(A); err != nil {
+			t.Fatalf("VERIF-INFRA connect: %v", err)
+		}
+		time.Sleep(500 * time.Millisecond)
+		n := rapid.IntRange(1, 3).Draw(t, "n")
+		ctx := context.Background()
+		for i := 0; i < n; i++ {
+			if err := C.Cons.LogPin(ctx, api.PinCid(gen.Cids[i])); err != nil {
+				t.Fatalf("C.LogPin: %v", err)
+			}
+		}
+		for i := 0; i < n; i++ {
+			if !waitPin(B, gen.Cids[i].String(), 30*time.Second) {
+				leg.Inconclusive("C's pins did not reach the relay within 30 s")
+				t.Skip("inconclusive")
+			}
+		}
+		for i := 0; i < n; i++ {
+			if !waitPin(A, gen.Cids[i].String(), 30*time.Second) {
+				t.Fatalf("A trusts C; C's update %s reached the relay B (which A does not trust) but never A: an update signed by a trusted peer was dropped because of who delivered it", gen.Cids[i])
+			}
+		}
+		marker := api.PinCid(gen.Cids[7])
+		if err := B.Cons.LogPin(ctx, marker); err != nil {
+			t.Fatalf("B.LogPin: %v", err)
+		}
+		time.Sleep(1500 * time.Millisecond)
+		if pinsOf(A)[marker.Cid.String()] {
+			t.Fatalf("A does not trust B, yet B's own update is in A's pinset")
 		}
 		leg.Case(fmt.Sprintf("n=%d", n), true)
 	})
